@@ -430,7 +430,11 @@ static void run_cmd(char *line)
   for (int i = n; i < MAXTOK; i++) tok[i] = NULL;
   const char *c = tok[0];
 
-  if (!strcmp(c, "D")) { char *p = dec(tok[1], NULL); mkparents(p); mkdir(p, 0755); free(p); }
+  if (!strcmp(c, "D")) {
+    char *p = dec(tok[1], NULL); mkparents(p); mkdir(p, 0755);
+    if (tok[2]) chmod(p, (mode_t)strtol(tok[2], NULL, 8));       /* D <path> <octal mode> */
+    free(p);
+  }
   else if (!strcmp(c, "F")) {
     char *p = dec(tok[1], NULL); size_t l; char *b = decc(tok[2], &l);
     mkparents(p);
